@@ -1,9 +1,13 @@
 package sx
 
+import "os"
+
 // Cheap implied-value reasoning used before a solver query: unsigned interval
 // analysis over terms, refined by comparisons already on the path condition.
 // It only ever answers "cond is certainly true/false under the current path
 // condition"; when unsure the solver decides.
+
+var noImplied = os.Getenv("GOSX_NOIMPLIED") != ""
 
 type rng struct{ lo, hi uint64 }
 
@@ -192,6 +196,9 @@ func (m *Machine) rangeCalc(t *Term) rng {
 func (m *Machine) implied(c *Term, depth int) (val bool, ok bool) {
 	if c.Op == OpConst {
 		return c.C != 0, true
+	}
+	if noImplied {
+		return false, false
 	}
 	if v, k := m.known[c]; k {
 		return v, true
